@@ -39,6 +39,10 @@ func (l Lit) Stream() ql.Stream {
 	case l.T == TBool:
 		return ql.Stream{ql.K(strconv.FormatBool(l.B))}
 	}
+	if l.T == TTime && strings.HasPrefix(l.Text, "datetime(") && strings.HasSuffix(l.Text, ")") {
+		// the grammar admits whitespace inside the parentheses of a datetime literal
+		return ql.Stream{ql.T("datetime("), ql.G(ql.Opt), ql.T(l.Text[len("datetime(") : len(l.Text)-1]), ql.G(ql.Opt), ql.T(")")}
+	}
 	return ql.Stream{ql.T(l.Text)}
 }
 
